@@ -147,7 +147,7 @@ def main():
                     got.append(("raise", type(p.outcome[1]).__name__))
                 else:
                     got.append(p.outcome)
-            n += 1; print(name, repr(x), len(paths), flush=True)
+            n += 1
             if any(g[0] == "unsupported" for g in got):
                 declined += 1
                 print("declined %s(%r): %s" % (name, x, [g for g in got if g[0] == "unsupported"][0][1]))
